@@ -188,6 +188,7 @@ pub(crate) fn sqref(subs: &Submissions) -> &SubmissionQueue {
 // C01  c01.state_new — the operation state is boxed once; its address (plus tag) is the user_data;
 //      resources live inside that box.
 // =========================================================================================
+//@waker_stubs
 #[kani::proof]
 #[kani::unwind(3)]
 fn c01_state_new() {
@@ -218,6 +219,7 @@ const TAG_MASK_: usize = !1usize;
 // =========================================================================================
 // C01/C02/C03  update.single.* — Shared::<Singleshot>::update from every reachable status
 // =========================================================================================
+//@waker_stubs
 #[kani::proof]
 #[kani::unwind(3)]
 fn update_single() {
@@ -392,11 +394,13 @@ fn update_multi_case(dropped: bool) {
     kani::cover!(more, "more coming");
     kani::cover!(!more, "final");
 }
+//@waker_stubs
 #[kani::proof]
 #[kani::unwind(3)]
 fn update_multi_live() {
     update_multi_case(false);
 }
+//@waker_stubs
 #[kani::proof]
 #[kani::unwind(3)]
 fn update_multi_dropped() {
@@ -463,31 +467,37 @@ fn drop_case(st: St, waker: Option<usize>) {
 }
 const CANCEL_USER_DATA_: u64 = 2;
 
+//@waker_stubs
 #[kani::proof]
 #[kani::unwind(3)]
 fn drop_not_started() {
     drop_case(St::NotStarted, None);
 }
+//@waker_stubs
 #[kani::proof]
 #[kani::unwind(3)]
 fn drop_running() {
     drop_case(St::Running, None);
 }
+//@waker_stubs
 #[kani::proof]
 #[kani::unwind(3)]
 fn drop_done() {
     drop_case(St::Done, None);
 }
+//@waker_stubs
 #[kani::proof]
 #[kani::unwind(3)]
 fn drop_running_with_waker() {
     drop_case(St::Running, Some(1));
 }
+//@waker_stubs
 #[kani::proof]
 #[kani::unwind(3)]
 fn drop_done_with_waker() {
     drop_case(St::Done, Some(1));
 }
+//@waker_stubs
 #[kani::proof]
 #[kani::unwind(3)]
 fn drop_complete() {
@@ -497,6 +507,7 @@ fn drop_complete() {
 // =========================================================================================
 // C06  drop_state — the deferred destructor (what Completion::process calls on StatusUpdate::Drop)
 // =========================================================================================
+//@waker_stubs
 #[kani::proof]
 #[kani::unwind(3)]
 fn drop_state_deferred() {
@@ -519,6 +530,7 @@ fn drop_state_deferred() {
 //   output + this operation's user_data; status Running; the poll's waker is stored (while the op lock is
 //   still held across add) — or, when the queue is full, the waker is registered as blocked and nothing changes.
 // =========================================================================================
+//@waker_stubs
 #[kani::proof]
 #[kani::unwind(3)]
 fn poll_not_started() {
@@ -574,16 +586,19 @@ fn poll_running_single_case(old: Option<usize>) {
     std::mem::forget(s);
     kani::cover!(true, "end");
 }
+//@waker_stubs
 #[kani::proof]
 #[kani::unwind(3)]
 fn poll_running_single_none() {
     poll_running_single_case(None);
 }
+//@waker_stubs
 #[kani::proof]
 #[kani::unwind(3)]
 fn poll_running_single_same() {
     poll_running_single_case(Some(4));
 }
+//@waker_stubs
 #[kani::proof]
 #[kani::unwind(3)]
 fn poll_running_single_other() {
@@ -649,16 +664,19 @@ fn poll_done_single_case(class: u8, result: i32) {
     kani::cover!(room, "room");
     kani::cover!(!room, "full");
 }
+//@waker_stubs
 #[kani::proof]
 #[kani::unwind(3)]
 fn poll_done_single_sym_ok() {
     poll_done_single_case(0, any_kernel_res());
 }
+//@waker_stubs
 #[kani::proof]
 #[kani::unwind(3)]
 fn poll_done_single_sym_restart() {
     poll_done_single_case(1, any_kernel_res());
 }
+//@waker_stubs
 #[kani::proof]
 #[kani::unwind(3)]
 fn poll_done_single_sym_err() {
@@ -667,6 +685,7 @@ fn poll_done_single_sym_err() {
 // =========================================================================================
 // C02  poll.complete_panics — a second poll after completion can never yield a value
 // =========================================================================================
+//@waker_stubs
 #[kani::proof]
 #[kani::unwind(3)]
 #[kani::should_panic]
@@ -757,11 +776,13 @@ fn poll_next_case(st: St) -> (usize, bool, bool) {
     kani::cover!(n == 1 && first.0 < 0 && !restart, "queued error");
     (n, restart, room)
 }
+//@waker_stubs
 #[kani::proof]
 #[kani::unwind(3)]
 fn poll_next_running() {
     poll_next_case(St::Running);
 }
+//@waker_stubs
 #[kani::proof]
 #[kani::unwind(3)]
 fn poll_next_done() {
@@ -778,6 +799,7 @@ pub(crate) fn process(c: &crate::io_uring::cq::Completion) {
     unsafe { crate::io_uring::cq::verif_cq::call_process(c) }
 }
 
+//@waker_stubs
 #[kani::proof]
 #[kani::unwind(3)]
 fn process_single_running() {
@@ -810,6 +832,7 @@ fn process_single_running() {
     kani::cover!(more, "non-final");
 }
 
+//@waker_stubs
 #[kani::proof]
 #[kani::unwind(3)]
 fn process_single_dropped() {
@@ -924,12 +947,14 @@ fn drop_rg_case(skip: u32) -> bool {
     }
     delivered
 }
+//@waker_stubs
 #[kani::proof]
 #[kani::unwind(3)]
 fn drop_rg_first_lock() {
     let delivered = drop_rg_case(0);
     kani::cover!(delivered, "completion processed just before drop took the lock");
 }
+//@waker_stubs
 #[kani::proof]
 #[kani::unwind(3)]
 fn drop_rg_later_lock() {
@@ -962,6 +987,7 @@ pub(crate) fn resources_addr<R, A>(s: &State<Singleshot, R, A>) -> usize {
 // every other error is returned unchanged (same errno).  Proved here once; other obligations replace it by the
 // identity through the cfg(kani) hook at its first line.
 // =========================================================================================
+//@waker_stubs
 #[kani::proof]
 #[kani::unwind(3)]
 fn op_fallback_other() {
